@@ -2432,11 +2432,38 @@ func (in *inliner) pruneConst(body *ast.BlockStmt) *ast.BlockStmt {
 // expression (everything else in E is applied to its result or is a plain operand): h's body is spliced in and each of its
 // `return A` becomes `return E[A]`. (return pb.delegateFor(psc).ShouldSample(p))
 func (in *inliner) returnThrough(rs *ast.ReturnStmt, within *types.Func) ([]ast.Stmt, bool) {
-	if len(rs.Results) != 1 {
+	if len(rs.Results) == 0 {
 		return nil, false
 	}
-	top := unparen(rs.Results[0])
-	if c, isC := top.(*ast.CallExpr); isC {
+	// the result that holds the call; the other results must be plain operands
+	ri := -1
+	for i, r := range rs.Results {
+		has := false
+		ast.Inspect(r, func(m ast.Node) bool {
+			if _, isLit := m.(*ast.FuncLit); isLit {
+				return false
+			}
+			if c, isC := m.(*ast.CallExpr); isC {
+				if fd, _ := in.inlinable(c, within); fd != nil {
+					has = true
+				}
+			}
+			return !has
+		})
+		if has {
+			if ri >= 0 {
+				return nil, false
+			}
+			ri = i
+		} else if !in.simpleArg(r) {
+			return nil, false
+		}
+	}
+	if ri < 0 {
+		return nil, false
+	}
+	top := unparen(rs.Results[ri])
+	if c, isC := top.(*ast.CallExpr); isC && len(rs.Results) == 1 {
 		if fd, _ := in.inlinable(c, within); fd != nil {
 			return nil, false // the whole result is the call: handled by the plain cases
 		}
@@ -2564,7 +2591,14 @@ func (in *inliner) returnThrough(rs *ast.ReturnStmt, within *types.Func) ([]ast.
 			return nil
 		}
 		nr := *rs
-		nr.Results = []ast.Expr{outer.node(rs.Results[0]).(ast.Expr)}
+		nr.Results = nil
+		for i, res := range rs.Results {
+			if i == ri {
+				nr.Results = append(nr.Results, outer.node(res).(ast.Expr))
+			} else {
+				nr.Results = append(nr.Results, (&copier{info: in.info}).node(res).(ast.Expr))
+			}
+		}
 		return &nr
 	}
 	out := pre
